@@ -1,6 +1,109 @@
-//! C01 monitor (not built yet)
-use vcore::{Args, Report};
+//! C01 — stream data is delivered reliably, in order, exactly once.
+//!
+//! Two real `DataStreams` endpoints (streams_h.rs) exchange PRF content over a channel that loses,
+//! delays, reorders and duplicates packets and feeds back ack / loss verdicts (ack-after-loss,
+//! repeated loss, delayed ack).  Oracle: every byte a `Reader` returns is `prf(seed, flow, offset)`
+//! at exactly the next offset; EOF only at the writer's final size; reset outcomes only when the
+//! harness itself cancelled / stopped; after the faults end, a waker-driven pump over a clean
+//! network must bring every stream to `nread == written ∧ EOF ∧ shutdown() = Ok` within
+//! K = 4·(#flows + outstanding frames) + 16 (+ flow-control allowance) rounds, and a fixpoint with
+//! unfinished streams is reported as stuck.
+use serde_json::{Value, json};
+use vcore::{Args, Report, Rng};
 
-pub fn run(_args: &Args, rep: &mut Report) {
-    rep.inconclusive("monitor not built yet");
+use crate::streams_h::*;
+
+pub fn report_case(rep: &mut Report, prop: &'static str, kind: &str, cfg: &Cfg, ops: &[Op], fin: bool, out: &CaseOut) -> bool {
+    let mut own = false;
+    for f in &out.fails {
+        if f.prop == prop || f.prop == "ANY" {
+            own = true;
+            rep.violation(format!("{prop}.{}", f.clause), format!("step {}: {}", f.step, f.detail), case_replay(kind, cfg, ops, f.step + 1, fin));
+        } else {
+            rep.count(&format!("foreign_root_cause_{}.{}", f.prop, f.clause));
+        }
+    }
+    if let Some(why) = &out.inconclusive {
+        rep.inconclusive(why.clone());
+    }
+    own
+}
+
+pub fn features_hash(s: &Stats) -> u64 {
+    let bits = [
+        s.dropped > 0,
+        s.duplicated > 0,
+        s.delayed > 0,
+        s.reordered_deliveries > 0,
+        s.spurious_losses > 0,
+        s.ack_after_loss > 0,
+        s.repeated_loss > 0,
+        s.range_acked_twice > 0,
+        s.loss_after_range_acked > 0,
+        s.retx_stream_frames > 0,
+        s.retx_ctl_frames > 0,
+        s.resets_seen > 0,
+        s.write_pending > 0,
+        s.open_blocked > 0,
+        s.fin_frames > 0,
+    ];
+    bits.iter().fold(0u64, |a, b| a << 1 | *b as u64)
+}
+
+fn run_one(rep: &mut Report, cfg: &Cfg, ops: &[Op], fin: bool) -> CaseOut {
+    let r = vcore::panics::catch(|| run_case(cfg, ops, fin, true));
+    rep.evaluations += 1;
+    match r {
+        Ok(out) => {
+            report_case(rep, "C01", "c01-e2e", cfg, ops, fin, &out);
+            out
+        }
+        Err(p) => {
+            let loc = vcore::panics::short_location(&p.location);
+            rep.violation(format!("C01.panic:{loc}"), format!("panic outside the guarded calls: {} at {}", p.message, p.location), case_replay("c01-e2e", cfg, ops, ops.len(), fin));
+            run_case(cfg, &[], false, false)
+        }
+    }
+}
+
+pub fn run(args: &Args, rep: &mut Report) {
+    rep.rule = "case = (16 transport-parameter values, concurrency strategies, explicit op list of opens / writes / reads / shutdown / flush / cancel / stop / \
+                packet assemblies with capacity, fate and ack-loss verdicts / ticks); distinct = distinct op lists (hash); non-trivial = at least one STREAM range was \
+                retransmitted AND at least one packet was dropped, duplicated or delivered out of order AND at least one byte was read and verified"
+        .into();
+    let rt = tokio::runtime::Builder::new_current_thread().enable_time().start_paused(true).build().unwrap();
+    let _g = rt.enter();
+    if let Some(path) = args.get("replay") {
+        let v: Value = serde_json::from_str(&std::fs::read_to_string(path).unwrap()).unwrap();
+        let v = if v.get("replay").is_some() { v["replay"].clone() } else { v };
+        let (cfg, ops, fin) = case_from_replay(&v);
+        run_one(rep, &cfg, &ops, fin);
+        return;
+    }
+    let thorough = args.get("tier") == Some("thorough");
+    let shard = args.u64("shard", 0);
+    let n = args.budget(if thorough { 20_000 } else { 250 });
+    let mut rng = Rng::new(args.seed() ^ 0xc01).fork(shard);
+    for i in 0..n {
+        let cfg = gen_cfg(&mut rng, Profile::C01);
+        let ops = gen_ops(&mut rng, Profile::C01, &cfg);
+        let out = run_one(rep, &cfg, &ops, true);
+        add_stats(rep, &out.stats, &out.ledger);
+        rep.set("fault_feature_mixes", features_hash(&out.stats));
+        rep.set("final_flow_states", out.state_hash);
+        rep.add("flows", out.flows as u64);
+        rep.max("max_final_rounds", out.final_rounds);
+        rep.max("max_k_bound", out.k_bound);
+        if out.completed {
+            rep.count("cases_completed_all_streams");
+        }
+        let s = &out.stats;
+        if s.retx_stream_frames > 0 && (s.dropped > 0 || s.duplicated > 0 || s.reordered_deliveries > 0) && s.bytes_read > 0 {
+            rep.distinct(ops_hash(&ops) ^ cfg.cseed);
+        }
+        if i < 2 {
+            rep.sample(json!({"cfg": cfg.to_json(), "n_ops": ops.len(), "first_ops": ops.iter().take(10).map(|o| o.to_json()).collect::<Vec<_>>(),
+                "completed": out.completed, "final_rounds": out.final_rounds, "k": out.k_bound, "flows": out.flows}));
+        }
+    }
 }
